@@ -1,7 +1,10 @@
 (* one case per line:
      F <family> <[-]hex magnitude>   -> OK <work hex> <label x hex | ->   |  ERR  |  PANIC
      D <family> <decimal depth>      -> OK <max counter> <max native nesting>  |  ERR  |  PANIC
-     H <decimal n>                   -> H <evaluator recursion depth of a left-associative chain of n operators> *)
+     H <decimal n>                   -> H <evaluator recursion depth of a left-associative chain of n operators>
+     X <codes,codes,..> <rounds>     -> like D, for the alternating nest (codes: 0 #if block, 1 bracket / expression entry,
+                                        2 unary, 3 asm block) repeated <rounds> times
+     B <sized><far_outp><place><fill> <[-]hex magnitude>  -> like F, for the #bankdef field combination *)
 let fam name : (z -> out res) option = match name with
   | "shl_amount" -> Some f_shl_amount | "shl_amount_zero" -> Some f_shl_amount_zero | "shr_amount" -> Some f_shr_amount
   | "slice_left" -> Some f_slice_left | "slice_right" -> Some f_slice_right | "slice_both" -> Some f_slice_both
@@ -36,6 +39,7 @@ let depth name : (nat -> (z * z) res) option = match name with
   | "if" -> Some d_if | "elif" -> Some d_elif
   | "fn_calls" -> Some (fun n -> match d_fn_calls n with Ok m -> Ok (m, m) | Err -> Err | Panic -> Panic)
   | "asm_calls" -> Some (fun n -> match d_asm_calls n with Ok m -> Ok (m, m) | Err -> Err | Panic -> Panic)
+  | "mixed_calls" -> Some (fun n -> match d_mixed_calls n with Ok m -> Ok (m, m) | Err -> Err | Panic -> Panic)
   | _ -> None
 
 let () = iter_lines (fun line ->
@@ -56,5 +60,18 @@ let () = iter_lines (fun line ->
         | Ok (c, d) -> print_endline (Printf.sprintf "OK %d %d" (int_of_z c) (int_of_z d))
         | Err -> print_endline "ERR"
         | Panic -> print_endline "PANIC"))
+  | ["X"; codes; n] ->
+    let cyc = List.map (fun c -> nat_of_int (int_of_string c)) (String.split_on_char ',' codes) in
+    (match d_mixed cyc (nat_of_int (int_of_string n)) with
+     | Ok (c, d) -> print_endline (Printf.sprintf "OK %d %d" (int_of_z c) (int_of_z d))
+     | Err -> print_endline "ERR"
+     | Panic -> print_endline "PANIC")
+  | ["B"; k; m] when String.length k = 4 ->
+    let bit i = k.[i] = '1' in
+    let place = nat_of_int (Char.code k.[2] - 48) in
+    (match f_bank_combo (bit 0) (bit 1) (bit 3) place (z_of_hex m) with
+     | Ok (w, x) -> print_endline ("OK " ^ hex_of_n w ^ " " ^ (match x with Some v -> hex_of_z v | None -> "-"))
+     | Err -> print_endline "ERR"
+     | Panic -> print_endline "PANIC")
   | ["H"; n] -> print_endline (Printf.sprintf "H %d" (int_of_z (d_chain_eval (nat_of_int (int_of_string n)))))
   | _ -> print_endline "?")
